@@ -757,6 +757,11 @@ func (c *Connection) processResult(from any, req *incomingRequest, result any, e
 				err = writeErr
 			}
 		} else {
+			// The result cannot be encoded. The request is still owed its one
+			// response: tell the caller that handling it failed.
+			if response, e := NewResponse(req.ID, nil, fmt.Errorf("%w: the result of %q could not be encoded: %v", ErrInternal, req.Method, respErr)); e == nil {
+				c.write(notDone{req.ctx}, response)
+			}
 			err = c.internalErrorf("%#v returned a malformed result for %q: %w", from, req.Method, respErr)
 		}
 	} else { // req is a notification
